@@ -288,3 +288,32 @@ pub fn inside<T, C>(r: &T, container: &C) -> bool {
     let p = r as *const T as usize;
     p >= lo && p + core::mem::size_of::<T>() <= hi
 }
+
+/// A key type whose `==` is not reflexive (like f32 with NaN): lawful for a
+/// `PartialEq`-keyed map, and the ideal dictionary never finds a `nan` key.
+#[derive(Clone, Copy, Debug)]
+pub struct Nr {
+    pub id: u8,
+    pub nan: bool,
+}
+impl PartialEq for Nr {
+    fn eq(&self, o: &Self) -> bool {
+        !self.nan && !o.nan && self.id == o.id
+    }
+}
+impl kani::Arbitrary for Nr {
+    fn any() -> Self {
+        Nr { id: kani::any(), nan: kani::any() }
+    }
+}
+impl Shape for Nr {
+    fn same(&self, o: &Self) -> bool {
+        self.id == o.id && self.nan == o.nan
+    }
+    fn ident(&self) -> u8 {
+        self.id
+    }
+    fn make(ident: u8, tag: u8) -> Self {
+        Nr { id: ident, nan: tag & 1 == 1 }
+    }
+}
